@@ -2,7 +2,7 @@
 when the alias's own rename line is marked with `!` (membership of the alias in `inversions`) and the option is a
 bool -- independent of any other alias of the same option."""
 from pyvc.dsl import (contract, invariant, inline, ite, is_tuple, is_none, is_int, is_str, is_instance, forall_int,
-                      exists_int, uf, old, klass, field)
+                      exists_int, uf, old, klass, field, same_value)
 from contracts.kschema import EV, BV, SV, VIS, SEL, W2C, FORCED
 from contracts.c_render import ESC, CACHES, hex_prefixed
 from esp_kconfiglib.core import BOOL, STRING, INT, HEX, FLOAT, UNKNOWN
@@ -12,7 +12,8 @@ MDP = "esp_kconfiglib.deprecated"
 klass("DeprecatedOptions", 30, MDP, fields={
     "config_prefix": field("str", "imm"),
     "inversions": field("list", "imm"),
-}, props=[], methods=["_deprecated_config_string"])
+    "r_dic": field("dict", "imm"),
+}, props=[], methods=["_deprecated_config_string", "is_inversion", "get_new_option"])
 
 
 def inverted(d, dep_name):
@@ -42,3 +43,21 @@ def ALIAS_LINE(d, s, dep_name):
 class C__deprecated_config_string:
     def ensures_value(self, sym, dep_name, result):
         return result == ALIAS_LINE(self, sym, dep_name)
+
+
+# ------------------------------------------------------------------------------------------------ rename-table lookups (C11)
+@contract(MDP, "DeprecatedOptions.is_inversion", params=["self", "deprecated_option"], kind="method",
+          cls="DeprecatedOptions", param_types={"deprecated_option": "str"}, result="bool")
+class C_is_inversion:
+    def ensures_value(self, deprecated_option, result):
+        return result == inverted(self, deprecated_option)
+
+
+@contract(MDP, "DeprecatedOptions.get_new_option", params=["self", "deprecated_option"], kind="method",
+          cls="DeprecatedOptions", param_types={"deprecated_option": "str"})
+class C_get_new_option:
+    def ensures_value(self, deprecated_option, result):
+        # the replacement recorded for the old name (the last mapping wins while the table is built), None if unknown
+        if deprecated_option in self.r_dic:
+            return same_value(result, self.r_dic[deprecated_option])
+        return result is None
